@@ -110,7 +110,17 @@ func (g *c08gen) failStmt() (string, string) {
 			return fmt.Sprintf("UPDATE tv SET n = 5, id = 10 / (id - %d);", kt), ""
 		}
 	}
-	switch g.r.Intn(19) {
+	switch g.r.Intn(22) {
+	case 19:
+		// the SELECT succeeds, the field list does not fit its result
+		name := fmt.Sprintf("f%d", g.nfail)
+		return fmt.Sprintf("CREATE TABLE %s (a, b) AS SELECT id FROM t0;", name), name
+	case 20:
+		name := fmt.Sprintf("f%d", g.nfail)
+		return fmt.Sprintf("CREATE TABLE %s (a, a) AS SELECT id, n FROM t0;", name), name
+	case 21:
+		name := fmt.Sprintf("f%d", g.nfail)
+		return fmt.Sprintf("CREATE TABLE %s (a, b, A);", name), name
 	case 16:
 		// multi-table UPDATE: the first listed table evaluates fine, the second fails at row k
 		o := map[string]string{"t0": "t1", "t1": "t0"}[t]
@@ -381,8 +391,15 @@ func (c08) Eval(t *testing.T, c *Case, dec func(int) *Decider) *Outcome {
 			if created, _ := isErr(i - 1); !created {
 				continue // the CREATE did not fail after all (its failing row had been deleted)
 			}
-			if e, _ := isErr(i); !e {
+			if e, msg := isErr(i); !e {
 				o.viol(prop, "failed-create", "failed-create-left-table", fmt.Sprintf("CREATE TABLE failed but table %s is visible to the following statement", st.Tables[0]))
+			} else if !strings.Contains(msg, "does not exist") && !strings.Contains(msg, "anceled") && !strings.Contains(msg, "Context") {
+				// the following statement must not find anything of the table: any other
+				// failure (a lock timeout on the leftover file, a parse error of an empty
+				// file) means that the failed CREATE left the file or its lock behind
+				o.viol(prop, "failed-create", "failed-create-left-file", fmt.Sprintf("CREATE TABLE %s failed, but the following statement does not report the table as missing: %s", st.Tables[0], msg))
+			} else {
+				o.Stats.probe("failed-create-probed")
 			}
 		}
 	}
